@@ -29,6 +29,7 @@ func NewDedupQueue(store Store) *DedupQueue {
 
 func (q *DedupQueue) GetChunk(id ChunkID) (*Chunk, error) {
 	req, isInFlight := q.getChunkQueue.loadOrStore(id)
+	verifYield("dedup.get.afterLoadOrStore")
 
 	if isInFlight { // The request is already in-flight, wait for it to come back
 		data, err := req.wait()
@@ -47,17 +48,21 @@ func (q *DedupQueue) GetChunk(id ChunkID) (*Chunk, error) {
 
 	// Signal to any others that wait for us that we're done, they'll use our data
 	// and don't need to hit the store themselves
+	verifYield("dedup.get.beforeMarkDone")
 	req.markDone(b, err)
+	verifYield("dedup.get.afterMarkDone")
 
 	// We're done, drop the request from the queue to avoid keeping all the chunk data
 	// in memory after the request is done
 	q.getChunkQueue.delete(id)
+	verifYield("dedup.get.afterDelete")
 
 	return b, err
 }
 
 func (q *DedupQueue) HasChunk(id ChunkID) (bool, error) {
 	req, isInFlight := q.hasChunkQueue.loadOrStore(id)
+	verifYield("dedup.has.afterLoadOrStore")
 
 	if isInFlight { // The request is already in-flight, wait for it to come back
 		data, err := req.wait()
@@ -69,10 +74,13 @@ func (q *DedupQueue) HasChunk(id ChunkID) (bool, error) {
 
 	// Signal to any others that wait for us that we're done, they'll use our data
 	// and don't need to hit the store themselves
+	verifYield("dedup.has.beforeMarkDone")
 	req.markDone(hasChunk, err)
+	verifYield("dedup.has.afterMarkDone")
 
 	// We're done, drop the request from the queue to avoid keeping all in memory
 	q.hasChunkQueue.delete(id)
+	verifYield("dedup.has.afterDelete")
 	return hasChunk, err
 }
 
